@@ -6,6 +6,7 @@ import (
 	"bytes"
 	"crypto/tls"
 	"fmt"
+	"strings"
 
 	"github.com/emersion/go-imap/v2"
 	"github.com/emersion/go-imap/v2/imapclient"
@@ -54,12 +55,15 @@ func c10ReadLiteral(r imap.LiteralReader) {
 
 // c10Stream adds the consumption phases of a streaming command according to the mode:
 // C collect, N explicit Next loop (reading literals) then Close, X Close only.
-func c10Stream(b *c10B, n int, mode string, collect func() error, loop func(), close_ func() error) {
+func c10Stream(b *c10B, n int, mode string, collect func() error, loop, skip func(), close_ func() error) {
 	switch mode {
 	case "C":
 		b.phase('C', n, func(x *c10Ctx) error { return collect() })
 	case "N":
 		b.phaseRet('N', n, func(x *c10Ctx) error { loop(); return nil })
+		b.phase('X', n, func(x *c10Ctx) error { return close_() })
+	case "K": // Next loop that skips the literals (the next Next call discards them)
+		b.phaseRet('N', n, func(x *c10Ctx) error { skip(); return nil })
 		b.phase('X', n, func(x *c10Ctx) error { return close_() })
 	default:
 		b.phase('X', n, func(x *c10Ctx) error { return close_() })
@@ -87,6 +91,17 @@ func c10FetchPhases(b *c10B, n int, mode string, get func() *imapclient.FetchCom
 					case imapclient.FetchItemDataBinarySection:
 						c10ReadLiteral(it.Literal)
 					}
+				}
+			}
+		},
+		func() {
+			cmd := get()
+			for {
+				msg := cmd.Next()
+				if msg == nil {
+					return
+				}
+				for msg.Next() != nil {
 				}
 			}
 		},
@@ -240,6 +255,10 @@ func c10Scenarios() []c10Scenario {
 				for cmd.Next() != nil {
 				}
 			},
+			func() {
+				for cmd.Next() != nil {
+				}
+			},
 			func() error { return cmd.Close() })
 	})
 	simple("status", true, func(c *imapclient.Client) func() error {
@@ -290,6 +309,112 @@ func c10Scenarios() []c10Scenario {
 		b.tagged(n, true, "OK FETCH completed")
 		c10FetchPhases(b, n, mode, func() *imapclient.FetchCommand { return cmd })
 	})
+	cnkx := []string{"C", "N", "K", "X"}
+	// empty sections: a zero-length literal and an empty quoted string still have to be "read" by
+	// the consumer (or discarded for it) before the reader goroutine goes on
+	add("fetch-empty", true, cnkx, func(b *c10B, mode string) {
+		c10Greeting(b)
+		n := b.cmd("f")
+		var cmd *imapclient.FetchCommand
+		b.phaseRet('i', n, func(x *c10Ctx) error {
+			cmd = x.c.Fetch(imap.SeqSetNum(1), &imap.FetchOptions{UID: true, BodySection: []*imap.FetchItemBodySection{
+				{Specifier: imap.PartSpecifierHeader}, {Specifier: imap.PartSpecifierText}}})
+			return nil
+		})
+		b.R(1)
+		b.fetch(n, "* 1 FETCH (UID 7 BODY[HEADER] ", []byte{}, " BODY[TEXT] ", c10Quoted(""), ")")
+		b.tagged(n, true, "OK done")
+		c10FetchPhases(b, n, mode, func() *imapclient.FetchCommand { return cmd })
+	})
+	l[len(l)-1].allModesQuick = true
+	add("fetch-quoted", false, cnkx, func(b *c10B, mode string) {
+		c10Greeting(b)
+		n := b.cmd("f")
+		var cmd *imapclient.FetchCommand
+		b.phaseRet('i', n, func(x *c10Ctx) error {
+			cmd = x.c.Fetch(imap.SeqSet{imap.SeqRange{Start: 1, Stop: 2}}, c10BodyOpts)
+			return nil
+		})
+		b.R(1)
+		b.fetch(n, "* 1 FETCH (UID 7 BODY[] ", c10Quoted("hello"), ")")
+		b.fetch(n, "* 2 FETCH (BODY[] ", c10Quoted(""), " UID 8)")
+		b.tagged(n, true, "OK done")
+		c10FetchPhases(b, n, mode, func() *imapclient.FetchCommand { return cmd })
+	})
+	add("fetch-binary-empty", false, cnkx, func(b *c10B, mode string) {
+		c10Greeting(b)
+		n := b.cmd("f")
+		var cmd *imapclient.FetchCommand
+		b.phaseRet('i', n, func(x *c10Ctx) error {
+			cmd = x.c.Fetch(imap.SeqSetNum(1), &imap.FetchOptions{UID: true,
+				BinarySection: []*imap.FetchItemBinarySection{{Part: []int{1}}}})
+			return nil
+		})
+		b.R(1)
+		b.fetch(n, "* 1 FETCH (UID 7 BINARY[1] ~", []byte{}, ")")
+		b.tagged(n, true, "OK done")
+		c10FetchPhases(b, n, mode, func() *imapclient.FetchCommand { return cmd })
+	})
+	// one FETCH response with more literal-free attributes than the message's item channel holds
+	add("fetch-many-atts", true, []string{"C", "X", "N"}, func(b *c10B, mode string) {
+		c10Greeting(b)
+		n := b.cmd("f")
+		var cmd *imapclient.FetchCommand
+		b.phaseRet('i', n, func(x *c10Ctx) error {
+			cmd = x.c.Fetch(imap.SeqSetNum(1), &imap.FetchOptions{UID: true, Flags: true})
+			return nil
+		})
+		b.R(1)
+		b.fetch(n, "* 1 FETCH ("+strings.Repeat("UID 7 ", 20)+strings.Repeat("FLAGS () ", 20)+"UID 7)")
+		b.tagged(n, true, "OK done")
+		c10FetchPhases(b, n, mode, func() *imapclient.FetchCommand { return cmd })
+	})
+	l[len(l)-1].quickStride = 4
+	// The greeting carries no CAPABILITY code: a background goroutine of the client sends CAPABILITY
+	// (T1) by itself. In the abstract shape that command is a stream command ("l") which the phase
+	// N1 = Client.Caps() waits for: Caps blocks until the refresh has completed and has no error
+	// result. Afterwards the caller makes the calls that consult Caps() internally.
+	capsRefresh := func(name string, quick bool, refresh func(b *c10B, n int), after func(b *c10B)) {
+		add(name, quick, one, func(b *c10B, mode string) {
+			b.greetNoCaps()
+			b.phaseRet('G', 0, func(x *c10Ctx) error { return x.c.WaitGreeting() })
+			n := b.cmd("l")
+			b.phaseRet('i', n, func(x *c10Ctx) error { return nil }) // issued by the client itself
+			b.R(1)
+			refresh(b, n)
+			b.phaseRet('N', n, func(x *c10Ctx) error { x.c.Caps(); return nil })
+			after(b)
+		})
+	}
+	refreshNo := func(b *c10B, n int) { b.tagged(n, false, "NO not now") }
+	refreshBad := func(b *c10B, n int) { b.tagged(n, false, "BAD what") }
+	refreshOK := func(b *c10B, n int) {
+		b.line(n, "* CAPABILITY "+c10Caps)
+		b.tagged(n, true, "OK done")
+	}
+	thenSearch := func(b *c10B) {
+		c10Simple(b, func(c *imapclient.Client) func() error {
+			cmd := c.Search(&imap.SearchCriteria{}, nil)
+			return func() error { _, err := cmd.Wait(); return err }
+		}, true, "OK SEARCH completed", "* SEARCH 2 4")
+	}
+	thenAuth := func(b *c10B) {
+		n := b.cmd("u")
+		b.R(1)
+		b.cont(n, "+ ")
+		b.R(1)
+		b.tagged(n, true, "OK [CAPABILITY "+c10Caps+"] authenticated")
+		b.phase('U', n, func(x *c10Ctx) error { return x.c.Authenticate(sasl.NewPlainClient("", "user", "pass")) })
+	}
+	thenCaps := func(b *c10B) {
+		b.phaseRet('G', 0, func(x *c10Ctx) error { x.c.Caps(); return nil })
+		c10Simple(b, func(c *imapclient.Client) func() error { return c.Noop().Wait }, true, "OK NOOP completed")
+	}
+	capsRefresh("caps-refresh-no-search", true, refreshNo, thenSearch)
+	capsRefresh("caps-refresh-no-auth", true, refreshNo, thenAuth)
+	capsRefresh("caps-refresh-bad-caps", false, refreshBad, thenCaps)
+	capsRefresh("caps-refresh-ok-search", false, refreshOK, thenSearch)
+	capsRefresh("caps-refresh-ok-auth", false, refreshOK, thenAuth)
 	add("store", true, []string{"C", "X"}, func(b *c10B, mode string) {
 		c10Greeting(b)
 		n := b.cmd("f")
@@ -314,6 +439,10 @@ func c10Scenarios() []c10Scenario {
 		b.tagged(n, true, "OK EXPUNGE completed")
 		c10Stream(b, n, mode,
 			func() error { _, err := cmd.Collect(); return err },
+			func() {
+				for cmd.Next() != 0 {
+				}
+			},
 			func() {
 				for cmd.Next() != 0 {
 				}
